@@ -5,7 +5,10 @@
 //! Implementación del cálculo del factor de obstáculos remotos de los huecos. Usa raytracing
 //! sobre una malla de puntos del hueco y una estructura BVH para acelerar el cálculo.
 
+#[cfg(not(kani))]
 use std::collections::BTreeMap;
+#[cfg(kani)]
+use crate::kani_models::BTreeMap;
 
 use log::{debug, warn};
 
